@@ -152,6 +152,9 @@ def _sweep_case(cs):
         cmd, argv = "diff", [R]
     else:
         cmd, argv = "create", [R, "-h", "crc32"]
+    if cmd in ("create", "diff", "info", "flatten", "verify") and spec != "usage2" and rng.random() < 0.4:
+        argv = argv + ["-v"]  # the command sets the process-wide verbose flag, which the checker thread can see
+        cs.count("sweep_verbose")
     beh, bcls = _behaviour(rng)
     srv = _srv["s"]
     port = srv.port
@@ -400,6 +403,12 @@ def _sched_case(cs):
     rng = cs.rng
     name, reply = rng.choice(REPLIES)
     modkey = rng.choice(["a", "b"])
+    # process-wide state the command body leaves behind when the callback runs (e.g. after `create -v`)
+    import ascmhl.logger as _lg
+
+    _lg.verbose_logging = rng.random() < 0.4
+    _lg.debug_logging = False
+    name = name + ("+verbose" if _lg.verbose_logging else "")
     free = _one(modkey, reply, "")
     nT = sum(1 for t in free["trace"] if t[0] == "T") + 2
     nM = sum(1 for t in free["trace"] if t[0] == "M") + 2
@@ -444,6 +453,7 @@ def _sched_case(cs):
             cs.violation("join-not-bounded-by-one-second", {"kind": "join-timeout", "args": [str(x) for x in ja]}, ctx)
         if r["daemon"] is not True:
             cs.violation("checker-thread-not-daemon", {"kind": "daemon-flag"}, ctx)
+    _lg.verbose_logging = False
     cs.count("distinct_schedule_traces", len(traces))
     for t in traces:
         cs.cls("sched", name, hash(t) % 10**9)
